@@ -17,7 +17,8 @@ class AddImplicitCastVisitor(Visitor.DefaultVisitor):
 
     def v_ArrayExpression(self, node, ctx=None):
         assert isinstance(node, ast.ArrayExpression)
-        node.GetExpression().AcceptVisitor(self, ctx)
+        # Both the accessed expression and the index can need casts
+        node.AcceptVisitor(self, ctx)
 
         # We allow Integer or UnsignedInteger as the index
         exprType = node.GetExpression().GetType()
@@ -56,6 +57,10 @@ class AddImplicitCastVisitor(Visitor.DefaultVisitor):
         assert node
         assert isinstance(node, ast.ConstructPrimitiveExpression)
 
+        # Nested expressions need their casts as well
+        for p in node.GetArguments():
+            self.v_Generic(p, ctx)
+
         # The primitive type of each argument must be the same as the result
         resultType = node.GetType().GetComponentType()
 
@@ -77,6 +82,10 @@ class AddImplicitCastVisitor(Visitor.DefaultVisitor):
 
     def v_CallExpression(self, node, ctx=None):
         assert isinstance(node, ast.CallExpression)
+
+        # Nested expressions need their casts as well
+        for arg in node.GetArguments():
+            self.v_Generic(arg, ctx)
 
         # The primitive type of each argument must be the same as the argument type
         argumentTypes = node.function.GetArgumentTypes().values()
